@@ -43,12 +43,13 @@ CelFacts(ps, f, l, dig) ==
   ELSE [f |-> f, l |-> l, empty |-> TRUE, x |-> 0, y |-> 0, tilemap |-> FALSE, ud |-> None, dig |-> dig]
 
 CelFactFields == {"f", "l", "empty", "x", "y", "tilemap"}
-CelEntryFailing(ps, e) ==
-  LET exp == CelFacts(ps, e.f, e.l, e.r1.dig) IN
+\* rendered: FALSE for canvases beyond the harness' pixel budget (nothing is rendered, images and digests are absent)
+CelEntryFailing(ps, e, rendered) ==
+  LET exp == CelFacts(ps, e.f, e.l, "") IN
   Chk("cel.routes_agree", e.r1 = e.r2 /\ e.r1 = e.r3)
   \cup Chk("cel.facts", Restrict(e.r1, CelFactFields) = Restrict(exp, CelFactFields))
   \cup Chk("user_data.cel", e.r1.ud = exp.ud)
-  \cup Chk("cel.image", e.image = [w |-> W(ps), h |-> H(ps), px |-> CelImage(ps, e.f, e.l)])
+  \cup Chk("cel.image", rendered => e.image = [w |-> W(ps), h |-> H(ps), px |-> CelImage(ps, e.f, e.l)])
   \cup Chk("cel.tilemap_some", e.tm = TilemapSome(ps, e.l, e.f))
 
 CelDig(obs, f, l) == LET S == {i \in DOMAIN obs.cels : obs.cels[i].f = f /\ obs.cels[i].l = l}
@@ -65,7 +66,7 @@ TilemapEntryFailing(ps, obs, e) ==
           \cup Chk("tilemap.tileset", e.tsid = ts.id)
           \cup Chk("tilemap.lookup", \A k \in DOMAIN e.lookups : e.lookups[k].id = TileAt(c, ts, e.lookups[k].x, e.lookups[k].y))
           \cup Chk("tilemap.lookup_far", \A k \in DOMAIN e.biglookups : e.biglookups[k].id = 0)
-          \cup Chk("tilemap.image_is_cel_image", e.dig = CelDig(obs, e.f, e.l) /\ e.iw = W(ps) /\ e.ih = H(ps))
+          \cup Chk("tilemap.image_is_cel_image", obs.render_ok => (e.dig = CelDig(obs, e.f, e.l) /\ e.iw = W(ps) /\ e.ih = H(ps)))
 
 FrameEntryFailing(ps, e) ==
   Chk("frame.image", e.w = W(ps) /\ e.h = H(ps) /\ e.px = FrameImage(ps, e.f))
@@ -130,16 +131,17 @@ Failing(ps, obs) ==
   \cup Chk("tilesets", /\ Len(obs.tilesets) = Len(ps.tilesets) /\ obs.ntilesets = Len(ps.tilesets)
                        /\ obs.tilesets_empty = (ps.tilesets = <<>>)
                        /\ Range(obs.tilesets) = {TilesetObs(t) : t \in Range(ps.tilesets)})
-  \cup Chk("tileset_images", /\ Len(obs.tileset_images) = Len(ps.tilesets)
-                             /\ Range(obs.tileset_images) = {TilesetImagesObs(ps, t, TRUE) : t \in Range(ps.tilesets)})
+  \cup Chk("tileset_images", LET small == {t \in Range(ps.tilesets) : t.count * t.tw * t.th <= 65536} IN
+                             /\ Len(obs.tileset_images) = Cardinality(small)
+                             /\ Range(obs.tileset_images) = {TilesetImagesObs(ps, t, TRUE) : t \in small})
   \cup Chk("user_data.sprite", obs.sprite_ud = ps.spriteUD)
   \cup Chk("cels_complete", (Small(nf) /\ Small(nl)) =>
              {<<obs.cels[k].f, obs.cels[k].l>> : k \in DOMAIN obs.cels} = (0..(nf - 1)) \X (0..(nl - 1)) /\ Len(obs.cels) = nf * nl)
-  \cup UNION {CelEntryFailing(ps, obs.cels[k]) : k \in DOMAIN obs.cels}
+  \cup UNION {CelEntryFailing(ps, obs.cels[k], obs.render_ok) : k \in DOMAIN obs.cels}
   \cup Chk("tilemaps_complete", Len(obs.tilemaps) = Cardinality({k \in DOMAIN obs.cels : obs.cels[k].tm}))
   \cup UNION {TilemapEntryFailing(ps, obs, obs.tilemaps[k]) : k \in DOMAIN obs.tilemaps}
   \cup Chk("tilemap_out_of_range", obs.tilemap_oob_none)
-  \cup Chk("frames_complete", Small(nf) => Len(obs.frames) = nf /\ {obs.frames[k].f : k \in DOMAIN obs.frames} = 0..(nf - 1))
+  \cup Chk("frames_complete", (Small(nf) /\ obs.render_ok) => Len(obs.frames) = nf /\ {obs.frames[k].f : k \in DOMAIN obs.frames} = 0..(nf - 1))
   \cup UNION {FrameEntryFailing(ps, obs.frames[k]) \cup SingleLayerFailing(ps, obs, obs.frames[k]) \cup UncoveredFailing(ps, obs.frames[k])
               : k \in DOMAIN obs.frames}
   \cup Chk("debug", obs.debug_ok)
